@@ -186,7 +186,7 @@ impl Run {
 
     /// The in-process monitors once more on the build with the shipped program's semantics.
     fn shadow(&mut self) {
-        const SHADOWED: &[&str] = &["C01", "C02", "C04", "C05", "C06", "C07", "C10", "C11", "C12", "C13", "C14", "C15", "C18"];
+        const SHADOWED: &[&str] = &["C01", "C02", "C04", "C05", "C06", "C07", "C09", "C10", "C11", "C12", "C13", "C14", "C15", "C18"];
         if !SHADOWED.contains(&self.prop.as_str()) {
             return;
         }
